@@ -60,6 +60,12 @@ LastIdx(s, T(_)) ==
 RECURSIVE Flatten(_)
 Flatten(ss) == IF ss = <<>> THEN <<>> ELSE Head(ss) \o Flatten(Tail(ss))
 
+(* -------------------------------- names -------------------------------- *)
+(* `r#` is not part of a Rust identifier: `r#a` and `a` are the same name   *)
+Plain(n) == IF Len(n) > 2 /\ SubSeq(n, 1, 2) = "r#" THEN SubSeq(n, 3, Len(n)) ELSE n
+HasDupNames(s) == \E i, j \in DOMAIN s : i < j /\ Plain(s[i]) = Plain(s[j])
+NamesOf(s) == [i \in DOMAIN s |-> s[i].name]
+
 (* ------------------------------- syntax -------------------------------- *)
 (* Type expressions as written in a description.                           *)
 TNone      == [k |-> "none"]
